@@ -69,12 +69,13 @@ def _split_types(pos, depth, t0, t1):
     """can_split / split with explicit types for the nodes after the split."""
     types = [t for t in C.schema.nodes.values() if not t.is_leaf and not t.is_text and not t.has_required_attrs()
              and t is not C.schema.top_node_type]
-    if not (0 <= pos <= C.size and 1 <= depth <= 2 and 0 <= t0 < len(types) and 0 <= t1 < len(types)) or C.is_split(pos):
+    # index len(types) stands for a None entry ("keep the original type at this level"), which Transform.split accepts
+    if not (0 <= pos <= C.size and 1 <= depth <= 2 and 0 <= t0 <= len(types) and 0 <= t1 <= len(types)) or C.is_split(pos):
         return rt.SKIP
     if depth == 1 and t1 != 0:
         return rt.SKIP
-    depth, t0, t1 = rt.pick(depth, 1, 2), rt.pick(t0, 0, len(types) - 1), rt.pick(t1, 0, len(types) - 1)
-    ta = [structure.NodeTypeWithAttrs(types[t0]), structure.NodeTypeWithAttrs(types[t1])][:depth]
+    depth, t0, t1 = rt.pick(depth, 1, 2), rt.pick(t0, 0, len(types)), rt.pick(t1, 0, len(types))
+    ta = [structure.NodeTypeWithAttrs(types[t]) if t < len(types) else None for t in (t0, t1)][:depth]
     # the type given for a node after the split must be able to continue that node's content
     # (typesAfter is meant for e.g. paragraph -> heading; a list continued as a code block is outside the claim)
     r = C.doc.resolve(pos)
@@ -82,7 +83,7 @@ def _split_types(pos, depth, t0, t1):
         return rt.fin(structure.can_split(C.doc, pos, depth, ta) is False, "can_split approves a split deeper than the position")
     for j in range(depth):
         orig = r.node(r.depth - depth + 1 + j).type.name
-        if not C.V.compatible(ta[j].type.name, orig):
+        if ta[j] is not None and not C.V.compatible(ta[j].type.name, orig):
             return rt.SKIP
     if not structure.can_split(C.doc, pos, depth, ta):
         return rt.fin(True)
@@ -248,4 +249,9 @@ def obligations(tier, seed):
     size = common.templates.doc("list", 15).content.size
     for lo in range(0, size + 1, 4):
         obs.append({"name": "lift/list#15/%d" % lo, "fn": "ob_lift", "P": dict(p, alo=lo, ahi=lo + 4), "timeout": T})
+    if tier == "quick":
+        p = {"schema": "list", "doc": 17}          # a nested list with two items: lifting the first one (open known finding)
+        size = common.templates.doc("list", 17).content.size
+        for lo in range(0, size + 1, 6):
+            obs.append({"name": "lift/list#17/%d" % lo, "fn": "ob_lift", "P": dict(p, alo=lo, ahi=lo + 6), "timeout": T})
     return obs
